@@ -27,6 +27,7 @@ VARIABLES phase,   \* "idle" (no accumulation in progress) or "run"
           done     \* history: one record per finished accumulation
 fcvars == <<phase, acc, prev, n, limit, done>>
 
+\* @type: (Int, Int) => Bool;
 Reached(x, L) == IF Strict THEN x > L ELSE x >= L
 
 Record == [acc : Int, prev : Int, n : Nat, limit : Int, early : BOOLEAN]
@@ -66,6 +67,7 @@ Next == \/ \E L \in Int : Start(L)
 Spec == Init /\ [][Next]_fcvars
 
 (* the statement: every finished accumulation stopped at the first partial sum that reached its limit *)
+\* @type: ({acc: Int, prev: Int, n: Int, limit: Int, early: Bool}) => Bool;
 RecordOK(r) == /\ r.n >= 1
                /\ r.early \/ Reached(r.acc, r.limit)
                /\ r.n > 1 => ~Reached(r.prev, r.limit)
